@@ -267,6 +267,17 @@ def temporal_interp():
     return I
 
 
+def _decode_contract(path, val):
+    """C14: serdes.decode is the identity on values that are not bytes-like, and yields a str otherwise."""
+    for k in (bytes, bytearray, memoryview, str):
+        cls_const(k)
+    bl = z3.Or(*[sub(cls_of(val), cls_const(k)) for k in (bytes, bytearray, memoryview)])
+    path.assume(z3.Implies(z3.Not(bl), rw.decode_f(val) == val))
+    path.assume(z3.Implies(bl, cls_of(rw.decode_f(val)) == cls_const(str)))
+    # builtin layouts: numbers are not bytes-like
+    path.assume(z3.Implies(z3.Or(sub(cls_of(val), cls_const(int)), sub(cls_of(val), cls_const(float))), z3.Not(bl)))
+
+
 def _self(I, path, clsname, T):
     t = SCls(T)
     return rw.routine_self(I, UN, clsname, {"t": t, "origin": t, "context": rw.Ctx(path.fresh("ctx")), "var": None})
@@ -282,6 +293,7 @@ def timedelta_unmarshaller(chk):
         T = path.fresh("T", Cls)
         path.assume(sub(T, cls_const(datetime.timedelta)))
         val = path.fresh("val")
+        _decode_contract(path, val)
         return [_self(I, path, "TimeDeltaUnmarshaller", T), SV(val)], {}, {"T": T, "val": val}
     results = I.run_function(func, mk)
     for pi, (path, out, obls, writes, cur) in enumerate(results):
@@ -307,7 +319,7 @@ def _td_one(chk, func, pi, path, out, cur):
     Tv = SCls(T)
     chk.add(Ob(func, names[0], pid, hy + [is_num], r == exp_call("construct", [Tv], {"seconds": SV(val)})))
     decoded = rw.decode_f(val)
-    is_text = cls_of(decoded) == cls_const(str)
+    is_text = sub(cls_of(decoded), cls_const(str))
     parsed = exp_call("serdes.dateparse", [SV(decoded)], {"t": datetime.timedelta})
     td = z3.If(is_text, parsed, decoded)
     chk.add(Ob(func, names[2], pid, hy + [z3.Not(is_num), is_text],
@@ -332,6 +344,7 @@ def datetime_unmarshaller(chk):
             T = path.fresh("T", Cls)
             path.assume(sub(T, cls_const(base)))
             val = path.fresh("val")
+            _decode_contract(path, val)
             return [_self(I, path, clsname, T), SV(val)], {}, {"T": T, "val": val}
         results = I.run_function(func, mk, max_paths=3000)
         for pi, (path, out, obls, writes, cur) in enumerate(results):
@@ -355,7 +368,7 @@ def _dt_one(chk, func, clsname, fields, pi, path, out, cur):
     r = to_val(out.value)
     # if the result is a `construct[<all fields>](T, ...)` application, its arguments must be the source's own fields
     d = r.decl().name() if z3.is_app(r) else ""
-    if d.startswith("construct[") and "fold" in d:
+    if d.startswith("construct[") and ("hour" in d or "fold" in d or "microsecond" in d):
         want = "construct[" + ",".join(sorted(fields)) + "]"
         ok_shape = d.split("/")[0] == want
         src = None
